@@ -20,7 +20,7 @@ META = {
         'grammar can construct, __repr__ (resolved through the MRO) is closed: constant head, every text-bearing '
         'field under %r (builtin reprs are closed by the library); (D3) parse_filter demands parseAll=True and the '
         'template is one def with one return expression; (D4) no open/import/os/subprocess/socket/eval/compile call '
-        'in the filter modules, exec only in the wrapper, Grid.filter stores nothing through self; (D5) the value constructors a filter literal reaches (datatypes __new__/__init__, pintutil.to_pint/to_haystack) call nothing on program-wide objects (unit registry, module tables).  Not decided: '
+        'in the filter modules, exec only in the wrapper, Grid.filter stores nothing through self; (D5) the value constructors a filter literal reaches (datatypes __new__/__init__, pintutil.to_pint/to_haystack) call nothing on program-wide objects (unit registry, module tables).  Also (D3): the filter text is handed unchanged from Grid.filter to the grammar (shared with C11.D8), so invalid tokens reach the grammar and are refused.  Not decided: '
         'absence of effects as an observation of executions.'),
     'rule_text': 'obligations = fragments reaching exec (per append/extend site), literal classes x repr conversions, '
                  'shape facts, ambient-effect call scan',
